@@ -18,13 +18,17 @@ open Cppcms Cppcms.C04
 
 /-! ### full-strength statements -/
 
-/-- (1) the filter's output validates, for every rule set, method and input -/
+/-- (1) the filter's output validates: every rule set a `rules` object can represent (`RulesOk`: the four
+default entities are present; in HTML mode `HtmlCaseOk`: tag lookups do not depend on ASCII case, as with the
+`icompare_c_string`-ordered map), every method, every input. -/
 def FilterValidates : Prop :=
-  ∀ (r : Rules) (m : Method) (x : Bytes), RulesOk r → validate r (filter r m x) = true
+  ∀ (r : Rules) (m : Method) (x : Bytes), RulesOk r → (r.xhtml = false → HtmlCaseOk r) →
+    validate r (filter r m x) = true
 
 /-- (1)+(3) the filter's output contains only white-listed markup -/
 def FilterOutputWhitelisted : Prop :=
-  ∀ (r : Rules) (m : Method) (x : Bytes), RulesOk r → Spec.OnlyWhitelisted r (filter r m x)
+  ∀ (r : Rules) (m : Method) (x : Bytes), RulesOk r → (r.xhtml = false → HtmlCaseOk r) →
+    Spec.OnlyWhitelisted r (filter r m x)
 
 /-! ### proved -/
 
@@ -46,27 +50,52 @@ theorem whitelist_only (r : Rules) (y : Bytes) (h : validate r y = true) :
     ∀ m ∈ Spec.lenientMarkup y, Spec.Allowed r m :=
   Cppcms.C04.whitelist_only r y h
 
-/-- (1) ⇒ (1)+(3): once the filter's output is known to validate, it is white-listed -/
-theorem whitelisted_of_filterValidates (h : FilterValidates) : FilterOutputWhitelisted :=
-  fun r m x hr => whitelist_only r _ (h r m x hr)
+/-- (1) **the filter's output validates** — XHTML and HTML rule sets, `remove_invalid` and `escape_invalid`,
+arbitrary attribute-value predicates, all byte strings. -/
+theorem filter_validates : FilterValidates :=
+  fun r m x hr hc => filter_validates_all r hr hc m x
 
-/-- (1), the proved fragment of `FilterValidates`: **XHTML rule sets** (`r.xhtml = true`, the default of
-`xss::rules`), every input, both `remove_invalid` and `escape_invalid`.  HTML mode (`r.xhtml = false`:
-pop-until-found nesting with re-typing to open_and_close_tag_without_slash) is not proved; it is covered by
-the judge on the real library only (see design.d/C04.md). -/
-theorem filter_validates_partial (r : Rules) (m : Method) (x : Bytes) (hr : RulesOk r) (hx : r.xhtml = true) :
-    validate r (filter r m x) = true :=
-  filter_validates_xhtml r hr hx m x
+/-- (1)+(3) the filter's output contains only white-listed markup -/
+theorem filter_output_whitelisted : FilterOutputWhitelisted :=
+  fun r m x hr hc => whitelist_only r _ (filter_validates r m x hr hc)
 
-/-- (1)+(3) for XHTML rule sets: the filter's output contains only white-listed markup -/
-theorem filter_output_whitelisted_partial (r : Rules) (m : Method) (x : Bytes) (hr : RulesOk r) (hx : r.xhtml = true) :
-    Spec.OnlyWhitelisted r (filter r m x) :=
-  whitelist_only r _ (filter_validates_partial r m x hr hx)
-
-/-- for XHTML rule sets the filter is idempotent -/
-theorem filter_idempotent_partial (r : Rules) (m m' : Method) (x : Bytes) (hr : RulesOk r) (hx : r.xhtml = true) :
+/-- the filter is idempotent (also across methods) -/
+theorem filter_idempotent (r : Rules) (m m' : Method) (x : Bytes) (hr : RulesOk r) (hc : r.xhtml = false → HtmlCaseOk r) :
     filter r m' (filter r m x) = filter r m x :=
-  valid_is_fixed_point r m' _ (filter_validates_partial r m x hr hx)
+  valid_is_fixed_point r m' _ (filter_validates r m x hr hc)
+
+/-- the XHTML instance (no side condition beyond `RulesOk`) -/
+theorem filter_validates_xhtml (r : Rules) (m : Method) (x : Bytes) (hr : RulesOk r) (hx : r.xhtml = true) :
+    validate r (filter r m x) = true :=
+  filter_validates r m x hr (fun h => by rw [hx] at h; cases h)
+
+/-- the hypotheses are those of real `rules` objects: every rule set the `add_*` calls build satisfies them -/
+theorem mkRules_hypotheses (d : RuleDesc) (oracle : Nat → Bytes → Bool) :
+    RulesOk (mkRules d oracle) ∧ ((mkRules d oracle).xhtml = false → HtmlCaseOk (mkRules d oracle)) :=
+  ⟨mkRules_rulesOk d oracle, fun h => mkRules_htmlCaseOk d oracle h⟩
+
+/-- hence for every rule set the `add_*` calls can build, with any verdicts of the external validators -/
+theorem filter_validates_mkRules (d : RuleDesc) (oracle : Nat → Bytes → Bool) (m : Method) (x : Bytes) :
+    validate (mkRules d oracle) (filter (mkRules d oracle) m x) = true :=
+  filter_validates _ m x (mkRules_hypotheses d oracle).1 (mkRules_hypotheses d oracle).2
+
+/-! `HtmlCaseOk` cannot be dropped for the *abstract* `Rules` type (whose `tagKind` is an arbitrary function):
+with `b` opening_and_closing but `B` stand_alone (impossible for a real HTML-mode `rules` object, whose map is
+keyed case-insensitively) the output `<b><B></b>` of `<b><x><B></x></b>` does not validate. -/
+
+def caseSplitRules : Rules where
+  xhtml := false
+  tagKind := fun n => if n = [98] then .openingAndClosing else if n = [66] then .standAlone else .invalidTag
+  prop := fun _ _ => none
+  entity := fun n => (Gen.defaultEntities.map bytesOf).contains n
+  comments := false
+  numeric := false
+
+theorem htmlCaseOk_needed_counterexample :
+    RulesOk caseSplitRules ∧
+    validate caseSplitRules (filter caseSplitRules .remove
+      [60, 98, 62, 60, 120, 62, 60, 66, 62, 60, 47, 120, 62, 60, 47, 98, 62]) = false :=
+  ⟨⟨by decide, by decide, by decide, by decide⟩, by decide +kernel⟩
 
 /-! ### non-vacuity -/
 
@@ -99,9 +128,25 @@ example : filter (exRules true) .remove exInvalid = [116] := by decide +kernel
 example : validate (exRules true) (filter (exRules true) .escape exInvalid) = true := by decide +kernel
 example : filter (exRules true) .escape exInvalid ≠ exInvalid := by decide +kernel
 example : (exRules true).xhtml = true := rfl
-/-- the conclusion of `filter_validates_partial` is not vacuous: the filter really changes this input -/
+/-- the conclusion of `filter_validates` is not vacuous: the filter really changes this input -/
 example : filter (exRules true) .remove exInvalid ≠ exInvalid ∧
     validate (exRules true) (filter (exRules true) .remove exInvalid) = true :=
-  ⟨by decide +kernel, filter_validates_partial _ _ _ (exRules_ok true) rfl⟩
+  ⟨by decide +kernel, filter_validates_xhtml _ _ _ (exRules_ok true) rfl⟩
+
+/-- an HTML-mode rule set meeting both hypotheses (`exRules false` distinguishes no case variants: only
+lower-case names are registered, so it is *not* case-closed; the `mkRules` instance below is) -/
+def exHtml : RuleDesc :=
+  { xhtml := false, comments := true, numeric := true, entities := [],
+    tags := [([112], .anyTag), ([98], .openingAndClosing), ([104, 114], .standAlone)], props := [] }
+
+/-- `<b><P>x</B>y<hr>&#65;</q>` in HTML mode: `</B>` closes `<b>` over the unclosed `<P>`; `</q>` is dropped -/
+def exHtmlInput : Bytes :=
+  [60, 98, 62, 60, 80, 62, 120, 60, 47, 66, 62, 121, 60, 104, 114, 62, 38, 35, 54, 53, 59, 60, 47, 113, 62]
+
+example : validate (mkRules exHtml fun _ _ => false) exHtmlInput = false := by decide +kernel
+example : filter (mkRules exHtml fun _ _ => false) .remove exHtmlInput =
+    [60, 98, 62, 60, 80, 62, 120, 60, 47, 66, 62, 121, 60, 104, 114, 62, 38, 35, 54, 53, 59] := by decide +kernel
+example : validate (mkRules exHtml fun _ _ => false) (filter (mkRules exHtml fun _ _ => false) .escape exHtmlInput) = true :=
+  filter_validates_mkRules exHtml _ .escape exHtmlInput
 
 end Cppcms.C04.Props
